@@ -525,6 +525,12 @@ def case_rejection(ctx, rng):
         'negative-variance-with-grad': lambda: pe.cov_Obs(1.0, -0.1, 'cvR', grad=[1.0]),
         'asymmetric-cov-with-grad': lambda: pe.cov_Obs([1.0, 2.0], [[1.0, 0.3], [0.1, 1.0]], 'cvR', grad=[1.0, 0.5]),
         'asymmetric-cov': lambda: pe.cov_Obs([1.0, 2.0], [[1.0, 0.3], [0.1, 1.0]], 'cvR'),
+        # asymmetric by very little: one ulp, a relative 1e-7, and matrices whose entries are tiny in absolute terms
+        'asymmetric-cov-one-ulp': lambda: pe.cov_Obs([1.0, 2.0], [[1.0, 0.5], [float(np.nextafter(0.5, 1.0)), 1.0]], 'cvR'),
+        'asymmetric-cov-relative-1e-7': lambda: pe.cov_Obs([1.0, 2.0], [[1.0, 0.5], [0.5 * (1 + 1e-7), 1.0]], 'cvR'),
+        'asymmetric-cov-tiny-entries': lambda: pe.cov_Obs([1.0, 2.0], [[1e-10, 0.8e-10], [0.2e-10, 1e-10]], 'cvR'),
+        'asymmetric-cov-tiny-entries-3d': lambda: pe.cov_Obs([1.0, 2.0, 3.0], [[4e-12, 1e-12, 0.0], [1e-12, 4e-12, 1e-12], [0.0, 1.5e-12, 4e-12]], 'cvR'),
+        'indefinite-cov-tiny-entries': lambda: pe.cov_Obs([1.0, 2.0], [[1e-12, 2e-12], [2e-12, 1e-12]], 'cvR'),
         'indefinite-cov': lambda: pe.cov_Obs([1.0, 2.0], [[1.0, 2.0], [2.0, 1.0]], 'cvR'),
         'negative-variance': lambda: pe.cov_Obs(1.0, -0.1, 'cvR'),
         'negative-variance-diag': lambda: pe.cov_Obs([1.0, 2.0], [0.1, -0.2], 'cvR'),
